@@ -822,7 +822,9 @@ def write_evidence(prop, spec, tier, seed, run, extra_cov=None):
                 "function/type instantiation or size bound",
         "samples": samples,
         "obligations": n_checks,
-        "discharged": sum((r.get("n_checks", 0) - r.get("n_failed", 0)) for h, r in run["results"] if r["verdict"] in ("pass", "fail")),
+        # (in a should_panic harness that passed, the "failed" checks are the expected panic: they count as discharged)
+        "discharged": sum((r.get("n_checks", 0) - (0 if (r["verdict"] == "pass" and h.expect_cover == "none") else r.get("n_failed", 0)))
+                          for h, r in run["results"] if r["verdict"] in ("pass", "fail")),
         "queries_cbmc_checks": n_checks,
         "solver_seconds": round(solver_s, 2),
         "symex_seconds": round(symex_s, 2),
